@@ -719,6 +719,25 @@ func c06Select(p *Prog, rp *Report, archT *types.Named) {
 				}
 				return []Val{admits[recv.Obj]}, true
 			}
+			// what the environment holds is not an input of the selection: every answer of a look-up is played
+			envRead := ""
+			m.Hooks["os.LookupEnv"] = func(m *Machine, st *State, call *ssa.CallCommon, args []Val) ([]Val, bool) {
+				envRead, _ = args[0].(string)
+				return []Val{&TupleV{E: []Val{"", false}}, &TupleV{E: []Val{"", true}}, &TupleV{E: []Val{"stage1 nocheck", true}}}, true
+			}
+			m.Hooks["os.Getenv"] = func(m *Machine, st *State, call *ssa.CallCommon, args []Val) ([]Val, bool) {
+				envRead, _ = args[0].(string)
+				return []Val{"", "stage1 nocheck"}, true
+			}
+			defer func() {
+				if envRead != "" {
+					bad++
+					undec = ""
+					if first == "" {
+						first = fmt.Sprintf("relations %v: the selection looks up the environment variable %s: the answer is not a function of the dependency and the architecture", rels, envRead)
+					}
+				}
+			}()
 			args := []Val{Ptr{Obj: did}}
 			if method == "GetPossibilities" {
 				if concrete {
